@@ -2,7 +2,7 @@
 import ast
 import re
 
-from .model import AnalysisError, call_name, enclosing_def, is_inf_literal, is_self_attr, loc, unparse
+from .model import clone, AnalysisError, call_name, enclosing_def, is_inf_literal, is_self_attr, loc, unparse
 from .paths import Walker, show_path
 
 from .anchors import ANCHOR_METHODS
@@ -45,6 +45,112 @@ def walk(program, view, fn, _depth=0):
                 for m in walk(program, view, r[1], _depth + 1):
                     yield m
 
+def path_text(events, idx, node, frame):
+    """source text of `node` (evaluated in `frame` at position idx of the path) with the locals assigned earlier on THIS path replaced by the canonical text
+    of what they were assigned -- a path-sensitive view of temporaries (`x = a if c else b; return f(x)`)"""
+    from . import scans
+    defs = {}
+    for e in events[:idx]:
+        if e.kind == "assign" and e.d.get("local") and e.frame.fid == frame.fid and e.d.get("value") not in (None, "?"):
+            name = e.d["target"][: len(e.d["target"]) - len(frame.tag)] if frame.tag and e.d["target"].endswith(frame.tag) else e.d["target"]
+            v = e.d["value"]
+            defs[name] = v if re.fullmatch(r"[\w.\[\]'\"]+", v) else "(%s)" % v
+    return scans._subst(unparse(node), defs)
+
+
+def pure_locals(fn):
+    """single-assignment locals of fn whose value is a pure access expression (no call): temporaries that merely name a sub-expression"""
+    cnt, val = {}, {}
+    for x in ast.walk(fn):
+        if isinstance(x, ast.Name) and isinstance(x.ctx, (ast.Store, ast.Del)):
+            cnt[x.id] = cnt.get(x.id, 0) + 1
+        if isinstance(x, ast.Assign) and len(x.targets) == 1 and isinstance(x.targets[0], ast.Name):
+            val[x.targets[0].id] = x.value
+    params = {a.arg for a in fn.args.args}
+    return {k: v for k, v in val.items() if cnt.get(k) == 1 and k not in params and not any(isinstance(y, (ast.Call, ast.Lambda, ast.ListComp, ast.GeneratorExp, ast.DictComp, ast.SetComp, ast.Yield)) for y in ast.walk(v))}
+
+
+def inline_locals(fn, node, depth=4):
+    """copy of `node` with the pure temporaries of fn replaced by their defining expressions"""
+    import copy
+    table = pure_locals(fn)
+    node = clone(node)
+    for _ in range(depth):
+        before = ast.dump(node)
+        node = _Subst(table).visit(node)
+        if ast.dump(node) == before:
+            break
+    return ast.fix_missing_locations(node)
+
+
+def inline_stable_locals(fn, pure_calls=("max", "min", "isinf", "len"), keep=None):
+    """deep copy of fn in which single-assignment temporaries that only name a value computed from `self`-rooted paths (and other such temporaries) are
+    replaced by that value at every use that precedes any write to those paths; their assignments are dropped.  Used by shape recognisers so that hoisting
+    `self.simulation.current_time`, `self.ps_threshold`, `max(k, self.ps_threshold)` ... into locals does not change what they see."""
+    import copy
+    from .scans import order_of
+    fn2 = clone(fn)
+    for _ in range(16):
+        cnt, val, stmt = {}, {}, {}
+        for x in ast.walk(fn2):
+            if isinstance(x, ast.Name) and isinstance(x.ctx, (ast.Store, ast.Del)):
+                cnt[x.id] = cnt.get(x.id, 0) + 1
+            if isinstance(x, ast.Assign) and len(x.targets) == 1 and isinstance(x.targets[0], ast.Name):
+                val[x.targets[0].id] = x.value
+                stmt[x.targets[0].id] = x
+        params = {a.arg for a in fn2.args.args}
+
+        def stable(v):
+            for y in ast.walk(v):
+                if isinstance(y, ast.Call) and not (isinstance(y.func, ast.Name) and y.func.id in pure_calls):
+                    return False
+                if isinstance(y, (ast.Lambda, ast.ListComp, ast.GeneratorExp, ast.DictComp, ast.SetComp, ast.Yield, ast.IfExp)):
+                    return False
+                if isinstance(y, ast.Name) and y.id not in ("self",) + tuple(pure_calls) and y.id not in ("float", "True", "False", "None") \
+                        and not (cnt.get(y.id) == 1 and y.id in val and y.id not in params and not any(isinstance(z, ast.Call) and not (isinstance(z.func, ast.Name) and z.func.id in pure_calls) for z in ast.walk(val[y.id]))):
+                    return False
+            return True
+        table = {k: v for k, v in val.items() if cnt.get(k) == 1 and k not in params and stable(v) and not (keep is not None and keep(k, v))}
+        if not table:
+            break
+        if hasattr(fn2, "_dfs_order"):
+            del fn2._dfs_order
+        order = order_of(fn2)
+        writes = []
+        for x in ast.walk(fn2):
+            if isinstance(x, (ast.Assign, ast.AugAssign)):
+                for t in (x.targets if isinstance(x, ast.Assign) else [x.target]):
+                    if not isinstance(t, ast.Name):
+                        writes.append((order[id(x)], unparse(t)))
+        done = False
+        for k, v in table.items():
+            paths = {unparse(y) for y in ast.walk(v) if isinstance(y, (ast.Attribute, ast.Subscript))}
+            d0 = order[id(stmt[k])]
+            uses = [y for y in ast.walk(fn2) if isinstance(y, ast.Name) and isinstance(y.ctx, ast.Load) and y.id == k]
+            ok = True
+            for u in uses:
+                for wo, wt in writes:
+                    if d0 < wo < order[id(u)] and any(wt == p or p.startswith(wt + ".") or p.startswith(wt + "[") for p in paths):
+                        ok = False
+            if not ok or not uses:
+                continue
+            _Subst({k: v}).visit(fn2)
+
+            class Drop(ast.NodeTransformer):
+                def visit_Assign(self, n):
+                    return ast.copy_location(ast.Pass(), n) if n is stmt[k] else self.generic_visit(n)
+            Drop().visit(fn2)
+            done = True
+            break           # recompute tables after each substitution
+        if not done:
+            break
+    ast.fix_missing_locations(fn2)
+    for n in ast.walk(fn2):
+        for c in ast.iter_child_nodes(n):
+            c._parent = n
+    return fn2
+
+
 def sum_terms(node):
     """sorted additive terms of an expression built with `+`, `-` and increment_time(a, b) (= a + b in both the float and the exact node): the order of
     the operands is immaterial"""
@@ -71,7 +177,7 @@ class _Subst(ast.NodeTransformer):
     def visit_Name(self, n):
         if isinstance(n.ctx, ast.Load) and n.id in self.mapping:
             import copy
-            return copy.deepcopy(self.mapping[n.id])
+            return clone(self.mapping[n.id])
         return n
 
 
@@ -115,7 +221,7 @@ def record_constructions(program, view, fn, ctor="DataRecord", _depth=0):
                         if k.arg is None:
                             fwd = fwd or (isinstance(k.value, ast.Name) and k.value.id == kwname)
                         else:
-                            v = _Subst(mapping).visit(copy.deepcopy(k.value))
+                            v = _Subst(mapping).visit(clone(k.value))
                             ast.fix_missing_locations(v)
                             fields[k.arg] = v
                     if fwd:
@@ -124,7 +230,7 @@ def record_constructions(program, view, fn, ctor="DataRecord", _depth=0):
             # deeper chains: helper calling another helper
             if not any(isinstance(c, ast.Call) and call_name(c) == ctor for c in ast.walk(h)):
                 for loc_node, fields in record_constructions(program, view, h, ctor, _depth + 1):
-                    out.append((n, {f: ast.fix_missing_locations(_Subst(mapping).visit(copy.deepcopy(v))) for f, v in fields.items()}))
+                    out.append((n, {f: ast.fix_missing_locations(_Subst(mapping).visit(clone(v))) for f, v in fields.items()}))
     return out
 
 
